@@ -90,6 +90,7 @@ def run(spec, R):
     if spec['kind'] == 'deep':
         # feature values that are spelled like punctuation categories or contain other legal characters
         atoms = atoms + [('A', b, ('U', f)) for b in ('S', 'NP') for f in ('conj', 'LRB', 'RRB', 'a=b', 'x,y', 'thr', '*START*')]
+        atoms = atoms + [('A', 'NP', ('T', (('mod', 'nm'), ('mod', 'nm'), ('fin', 'f'))))]      # a repeated key is still three parts
     if spec['kind'] == 'repotests':
         from vlib import repotests
         repotests.run_repo_tests(R, ['tests/test_cat.py'], lambda: None)
